@@ -247,6 +247,9 @@ class Expander:
                 r.features.add('dtd:root-doc')
             if d.xml_base:
                 r.features.add('explicit-xml-base:root-doc')
+            if _vanishing_first_child(d.top):
+                # (the parser of the library loses its current node there: known crash, named in the key of crash violations)
+                r.features.add('include-replaced-by-nothing:first-child')
             self.stack.append(uri)
             self.emit(d.top, 'root', 'root-doc', 0, True)
             self.stack.pop()
@@ -422,11 +425,24 @@ class Expander:
             if ':fallback' in where:
                 r.features.add('nested-fallback-used')
             w = where if ':fallback' in where else where + ':fallback'
-            before = len(r.events)
             self.emit(fb.children, 'fallback:' + where.split(':')[0], w, depth)
-            if len(r.events) == before and first_child and depth == 0:
-                # (the parser of the library loses its current node here: known crash, named in the key of crash violations)
-                r.features.add('include-replaced-by-nothing:first-child')
+
+
+def _vanishing(e):
+    """xi:include whose fallback yields nothing (statically: no children, or only includes of the same kind)"""
+    fb = [c for c in e.children if isinstance(c, El) and c.ns == XI and c.local == 'fallback']
+    return len(fb) == 1 and all(isinstance(c, El) and c.ns == XI and c.local == 'include' and _vanishing(c) for c in fb[0].children)
+
+
+def _vanishing_first_child(nodes, top=True):
+    """some xi:include of the tree (unused fallbacks included) is the first child of its parent and can be replaced by nothing"""
+    for k, n in enumerate(nodes):
+        if isinstance(n, El):
+            if n.ns == XI and n.local == 'include' and k == 0 and not top and _vanishing(n):
+                return True
+            if _vanishing_first_child(n.children, False):
+                return True
+    return False
 
 
 def _has_include(e):
